@@ -31,6 +31,7 @@ type c14Params struct {
 	Only   int  `json:"only_every"`    // with Trace: run only every n-th case
 	Files  int  `json:"files"`
 	MaxOut int  `json:"max_out"`
+	Dirs   bool `json:"dirs"`
 }
 
 func stringsOver(alpha string, maxLen int) []string {
@@ -258,50 +259,72 @@ func relTo(dir, p string) string {
 	return p
 }
 
-// workC14Graphs: all include graphs on k files (targets also: missing file, directory) against the reference.
+// workC14Graphs: all include graphs on k files (targets also: missing file, directory) against the reference. With
+// Dirs the files live in two directories and share base names (root.jst, a.jst, sub/a.jst, sub/b.jst), so that the same
+// written name means different files depending on the including file's directory.
 func workC14Graphs(w *run.W) {
 	var p c14Params
 	json.Unmarshal(w.Params, &p)
 	dir := workerDir(w)
 	defer os.RemoveAll(dir)
-	n := p.Files
-	targets := n + 2 // files, missing, directory
-	var lists [][]int
-	lists = append(lists, nil)
-	for a := 0; a < targets; a++ {
-		lists = append(lists, []int{a})
+	var nodes []string
+	if p.Dirs {
+		nodes = []string{"root.jst", "a.jst", "sub/a.jst", "sub/b.jst"}
+	} else {
+		for i := 0; i < p.Files; i++ {
+			nodes = append(nodes, fmt.Sprintf("f%d.jst", i))
+		}
 	}
-	if p.MaxOut >= 2 {
-		for a := 0; a < targets; a++ {
-			for b := 0; b < targets; b++ {
-				lists = append(lists, []int{a, b})
+	n := len(nodes)
+	const missing, directory = -1, -2
+	type tgt struct {
+		written string
+		node    int
+	}
+	dirOf := func(f string) string {
+		if i := strings.LastIndex(f, "/"); i >= 0 {
+			return f[:i+1]
+		}
+		return ""
+	}
+	targetsOf := make([][]tgt, n)
+	for i, f := range nodes {
+		d := dirOf(f)
+		for j, g := range nodes {
+			if strings.HasPrefix(g, d) {
+				targetsOf[i] = append(targetsOf[i], tgt{strings.TrimPrefix(g, d), j})
 			}
 		}
+		targetsOf[i] = append(targetsOf[i], tgt{"missing.jst", missing}, tgt{"adir", directory})
 	}
+	listsOf := make([][][]tgt, n)
 	total := 1
-	for i := 0; i < n; i++ {
-		total *= len(lists)
-	}
-	tname := func(t int) string {
-		switch {
-		case t < n:
-			return fmt.Sprintf("f%d.jst", t)
-		case t == n:
-			return "missing.jst"
+	for i := range nodes {
+		ll := [][]tgt{nil}
+		for _, a := range targetsOf[i] {
+			ll = append(ll, []tgt{a})
 		}
-		return "adir"
+		if p.MaxOut >= 2 {
+			for _, a := range targetsOf[i] {
+				for _, b := range targetsOf[i] {
+					ll = append(ll, []tgt{a, b})
+				}
+			}
+		}
+		listsOf[i] = ll
+		total *= len(ll)
 	}
 	for c := 0; c < total; c++ {
-		if !w.Mine(int64(c)) || !w.Begin(fmt.Sprintf("graph/%d/%d", n, c)) {
+		if !w.Mine(int64(c)) || !w.Begin(fmt.Sprintf("graph/%v/%d/%d", p.Dirs, n, c)) {
 			continue
 		}
-		graph := make([][]int, n)
+		graph := make([][]tgt, n)
 		x := c
-		pr := impl.Project{Files: map[string]string{}, Root: "f0.jst", Dirs: []string{"adir"}}
+		pr := impl.Project{Files: map[string]string{}, Root: nodes[0], Dirs: []string{"adir", "sub/adir"}}
 		line := make([][]int, n)
 		for i := 0; i < n; i++ {
-			graph[i] = lists[x%len(lists)]
-			x /= len(lists)
+			graph[i] = listsOf[i][x%len(listsOf[i])]
+			x /= len(listsOf[i])
 			var b strings.Builder
 			ln := 1
 			if i == 0 {
@@ -311,39 +334,36 @@ func workC14Graphs(w *run.W) {
 			fmt.Fprintf(&b, "# file %d\n", i)
 			ln++
 			for _, t := range graph[i] {
-				fmt.Fprintf(&b, "INCLUDE %s\n", tname(t))
+				fmt.Fprintf(&b, "INCLUDE %s\n", t.written)
 				line[i] = append(line[i], ln)
 				ln++
 			}
-			pr.Files[fmt.Sprintf("f%d.jst", i)] = b.String()
+			pr.Files[nodes[i]] = b.String()
 		}
 		// reference: first error in include-processing order
 		verdict, vfile, vline := "accept", "", 0
 		var sim func(f int, stack []int) bool
 		sim = func(f int, stack []int) bool {
 			for k, t := range graph[f] {
-				switch {
-				case t == n:
-					verdict, vfile, vline = "missing", tname(f), line[f][k]
+				switch t.node {
+				case missing:
+					verdict, vfile, vline = "missing", nodes[f], line[f][k]
 					return false
-				case t == n+1:
-					verdict, vfile, vline = "directory", tname(f), line[f][k]
+				case directory:
+					verdict, vfile, vline = "directory", nodes[f], line[f][k]
 					return false
 				}
-				onStack := t == f
+				onStack := t.node == f
 				for _, s := range stack {
-					if s == t {
+					if s == t.node {
 						onStack = true
 					}
 				}
 				if onStack {
 					verdict = "recursion"
-					if t == 0 {
-						verdict = "recursion-through-root"
-					}
 					return false
 				}
-				if !sim(t, append(append([]int{}, stack...), f)) {
+				if !sim(t.node, append(append([]int{}, stack...), f)) {
 					return false
 				}
 			}
@@ -362,11 +382,11 @@ func workC14Graphs(w *run.W) {
 			if b.Err != nil {
 				w.Violation("C14", "acyclic-graph-rejected", fmt.Sprintf("include graph without a cycle (repeated inclusion only) rejected: %s (%s:%d)\n%s", b.Err.Msg, b.Err.File, b.Err.Line, showProject(pr)), detail)
 			}
-		case verdict == "recursion" || verdict == "recursion-through-root":
+		case verdict == "recursion":
 			if b.Err == nil {
 				w.Violation("C14", "cycle-accepted", "include cycle accepted\n"+showProject(pr), detail)
 			} else if !strings.Contains(b.Err.Msg, "recursion") {
-				w.Violation("C14", "cycle-other-error:"+verdict, fmt.Sprintf("include cycle reported as %q instead of the recursion error\n%s", b.Err.Msg, showProject(pr)), detail)
+				w.Violation("C14", "cycle-other-error", fmt.Sprintf("include cycle reported as %q instead of the recursion error\n%s", b.Err.Msg, showProject(pr)), detail)
 			}
 		default:
 			want := map[string]string{"missing": "does not exist", "directory": "is a directory"}[verdict]
@@ -404,6 +424,8 @@ func runC14(c *chk.Ctx) {
 	pg := c14Params{Files: chk.Pick(c, 3, 4), MaxOut: 2}
 	r2 := c.Pool.Run("c14graphs", pg)
 	c.Merge(r2, "graphs")
+	r4 := c.Pool.Run("c14graphs", c14Params{Dirs: true, MaxOut: chk.Pick(c, 1, 2)})
+	c.Merge(r4, "graphs")
 	if !c.Quick() {
 		r3 := c.Pool.Run("c14graphs", c14Params{Files: 5, MaxOut: 1})
 		c.Merge(r3, "graphs")
@@ -414,8 +436,8 @@ func runC14(c *chk.Ctx) {
 	c.Cov["traces_validated_against_impl"] = cnt["cases"] + cnt["graphs"]
 	c.Cov["params"] = map[string]any{"strings": p, "graphs": pg}
 	c.Cov["distinct_outcomes"] = map[string]int64{"refused": cnt["refused_names"], "missing": cnt["missing_targets"], "directory": cnt["directory_targets"], "existing": cnt["existing_targets"],
-		"graph_accept": cnt["ref_accept"], "graph_recursion": cnt["ref_recursion"] + cnt["ref_recursion-through-root"], "graph_missing": cnt["ref_missing"], "graph_directory": cnt["ref_directory"]}
-	c.Cov["rule"] = "(i) every parameter string over {a . / \\} up to the length bound and over {a . / \\ ~ : space} up to a shorter bound, bare and quoted, INCLUDEd from the root and from a file in a sub-directory, on a directory layout with decoy files outside the project; every file-system access of the library (package os replaced by a recording shim in jsight-api-core and jsight-schema-core through a build overlay) must be the root file, the including file, or lie in the including file's directory; names with a '.'/'..' segment, absolute names and backslashes must be refused without any access. The shim is validated against strace on every n-th case. (ii) every include graph on k files with <= 2 ordered includes per file (targets: the files, a missing file, a directory), compared with a reference include expansion (recursion error iff a file is re-entered while on the stack)."
+		"graph_accept": cnt["ref_accept"], "graph_recursion": cnt["ref_recursion"], "graph_missing": cnt["ref_missing"], "graph_directory": cnt["ref_directory"]}
+	c.Cov["rule"] = "(i) every parameter string over {a . / \\} up to the length bound and over {a . / \\ ~ : space} up to a shorter bound, bare and quoted, INCLUDEd from the root and from a file in a sub-directory, on a directory layout with decoy files outside the project; every file-system access of the library (package os replaced by a recording shim in jsight-api-core and jsight-schema-core through a build overlay) must be the root file, the including file, or lie in the including file's directory; names with a '.'/'..' segment, absolute names and backslashes must be refused without any access. The shim is validated against strace on every n-th case. (ii) every include graph on k files with <= 2 ordered includes per file (targets: the files, a missing file, a directory), compared with a reference include expansion (recursion error iff a file is re-entered while on the stack); the same on four files in two directories that share base names (the same written name denotes different files from different directories)."
 }
 
 // c14Strace runs every n-th case under strace and compares the project-relevant paths with the shim's log.
